@@ -563,6 +563,41 @@ def install():
 install()
 
 
+def build_extras(prog):
+    """The additional_data of a program (frames, series, blotters, reference tables)."""
+    ex = {}
+    for k, v in prog.get("extra", {}).items():
+        if isinstance(v, dict) and v.get("__series__"):
+            ex[k] = pd.Series([float("nan") if x is None else float(x) for x in v["values"]], index=dates_of(prog))
+        elif isinstance(v, dict) and v.get("__raw__") is not None:
+            ex[k] = v["__raw__"]
+        elif isinstance(v, dict) and v.get("__bydate__"):
+            # a table indexed by ticker with a date column given as a data row number
+            dts_ = dates_of(prog)
+            rows = v["rows"]  # {ticker: {"date": row, ...other columns}}
+
+            def dt_(r):
+                return dts_[r] if r < len(dts_) else dts_[-1] + pd.DateOffset(days=30)
+
+            cols_ = sorted({c_ for r in rows.values() for c_ in r})
+            ex[k] = pd.DataFrame({c_: [(dt_(r[c_]) if c_ == "date" else r[c_]) for r in rows.values()] for c_ in cols_}, index=list(rows.keys()))
+            if "date" in ex[k].columns:
+                ex[k]["date"] = pd.to_datetime(ex[k]["date"])
+        elif isinstance(v, dict) and v.get("__tx__"):
+            # a blotter: [data row, ticker, quantity, price, hours before the close]
+            dts_ = dates_of(prog)
+            rows = v["rows"]
+            idx = pd.MultiIndex.from_tuples([(dts_[r[0]] - pd.DateOffset(hours=int(r[4]) if len(r) > 4 else 0), r[1]) for r in rows], names=["Date", "Security"])
+            ex[k] = pd.DataFrame({"quantity": [float(r[2]) for r in rows], "price": [float(r[3]) for r in rows]}, index=idx)
+        elif isinstance(v, dict) and v.get("__group__"):
+            ex[k] = {m: frame(prog, tab) for m, tab in v["frames"].items()}
+        elif isinstance(v, dict):
+            ex[k] = frame(prog, v)
+        else:
+            ex[k] = v
+    return ex
+
+
 def run_program(prog, record=True, tid0=0, lazy=True, seed=None, impl=False):
     """Build and run the backtest of a program.  Returns dict with the finished
     backtest object ('bt'), the traces (one per recorded root), spy log, and
@@ -577,24 +612,7 @@ def run_program(prog, record=True, tid0=0, lazy=True, seed=None, impl=False):
     try:
         strat = build_node(prog["tree"], prog, sess.spylog, lazy=lazy)
         data = frame(prog, prog["px"], prog["cols"])
-        ex = {}
-        for k, v in prog.get("extra", {}).items():
-            if isinstance(v, dict) and v.get("__series__"):
-                ex[k] = pd.Series([float("nan") if x is None else float(x) for x in v["values"]], index=dates_of(prog))
-            elif isinstance(v, dict) and v.get("__raw__") is not None:
-                ex[k] = v["__raw__"]
-            elif isinstance(v, dict) and v.get("__tx__"):
-                # a blotter: [data row, ticker, quantity, price, hours before the close]
-                dts_ = dates_of(prog)
-                rows = v["rows"]
-                idx = pd.MultiIndex.from_tuples([(dts_[r[0]] - pd.DateOffset(hours=int(r[4]) if len(r) > 4 else 0), r[1]) for r in rows], names=["Date", "Security"])
-                ex[k] = pd.DataFrame({"quantity": [float(r[2]) for r in rows], "price": [float(r[3]) for r in rows]}, index=idx)
-            elif isinstance(v, dict) and v.get("__group__"):
-                ex[k] = {m: frame(prog, tab) for m, tab in v["frames"].items()}
-            elif isinstance(v, dict):
-                ex[k] = frame(prog, v)
-            else:
-                ex[k] = v
+        ex = build_extras(prog)
         fn = treedrv.comm_fn(prog["bt"]["comm"]) if prog["bt"].get("comm") else None
         b = bt.Backtest(strat, data, initial_capital=float(prog["bt"].get("capital", 10000)), commissions=fn, integer_positions=bool(prog["bt"].get("integer", True)), additional_data=ex or None)
         out["bt"] = b
